@@ -1292,48 +1292,109 @@ class Program:
                                 else:
                                     setattr(par, fld, new)
                                 changed = True
-                    # N18: `sel = K1 if c1 else K2 if c2 else K3` (constants) immediately followed by `return F(sel)`, sel used
-                    #      nowhere else  ->  `if c1: return F(K1) elif c2: return F(K2) else: return F(K3)`, `X if K else Y` folded
+                    # N18: `sel = K1 if c1 else K2 if c2 else K3` (constants) followed by the rest of the block, sel used nowhere
+                    #      else  ->  `if c1: REST[sel:=K1] elif c2: REST[sel:=K2] else: REST[sel:=K3]`, with `X if K else Y`,
+                    #      `K is None` and `if K:` folded for the constants
                     for par in list(ast.walk(fnode)):
                         for fld in ('body', 'orelse', 'finalbody'):
                             blk = getattr(par, fld, None)
                             if not (isinstance(blk, list) and len(blk) >= 2 and isinstance(blk[0], ast.stmt)):
                                 continue
-                            a_, r_ = blk[-2], blk[-1]
-                            if not (isinstance(a_, ast.Assign) and len(a_.targets) == 1 and isinstance(a_.targets[0], ast.Name) and
-                                    isinstance(a_.value, ast.IfExp) and isinstance(r_, ast.Return) and r_.value is not None):
-                                continue
-                            nm = a_.targets[0].id
-                            occ = [x for x in ast.walk(fnode) if isinstance(x, ast.Name) and x.id == nm]
-                            in_ret = [x for x in ast.walk(r_.value) if isinstance(x, ast.Name) and x.id == nm]
-                            if len(occ) != len(in_ret) + 1 or not in_ret:
-                                continue
-                            if any(isinstance(x, (ast.Lambda, ast.ListComp, ast.SetComp, ast.DictComp, ast.GeneratorExp)) and
-                                   any(y.id == nm for y in ast.walk(x) if isinstance(y, ast.Name)) for x in ast.walk(r_.value)):
-                                continue
-                            leaves, tests, e_ = [], [], a_.value
-                            while isinstance(e_, ast.IfExp):
-                                tests.append(e_.test)
-                                leaves.append(e_.body)
-                                e_ = e_.orelse
-                            leaves.append(e_)
-                            if not all(isinstance(x, ast.Constant) for x in leaves) or len(leaves) > 6 or not all(pure_test(t_) for t_ in tests):
-                                continue
+                            for bi in range(len(blk) - 1):
+                                a_ = blk[bi]
+                                rest_ = blk[bi + 1:]
+                                if not (isinstance(a_, ast.Assign) and len(a_.targets) == 1 and isinstance(a_.targets[0], ast.Name) and
+                                        isinstance(a_.value, ast.IfExp) and 1 <= len(rest_) <= 6):
+                                    continue
+                                nm = a_.targets[0].id
+                                occ = [x for x in ast.walk(fnode) if isinstance(x, ast.Name) and x.id == nm]
+                                in_rest = [x for st_ in rest_ for x in ast.walk(st_) if isinstance(x, ast.Name) and x.id == nm]
+                                if len(occ) != len(in_rest) + 1 or not in_rest or any(isinstance(x.ctx, ast.Store) for x in in_rest):
+                                    continue
+                                if any(isinstance(x, (ast.Lambda, ast.FunctionDef, ast.ListComp, ast.SetComp, ast.DictComp, ast.GeneratorExp,
+                                                      ast.For, ast.While)) and
+                                       any(isinstance(y, ast.Name) and y.id == nm for y in ast.walk(x)) for st_ in rest_ for x in ast.walk(st_)):
+                                    continue
+                                # the selector steers control (it is tested somewhere in the rest, or the rest is the single
+                                # return that uses it) and is not merely a piece of text that is formatted into a string
+                                par_of = {id(c_): p_ for st_ in rest_ for p_ in ast.walk(st_) for c_ in ast.iter_child_nodes(p_)}
 
-                            def fold_const(e2):
-                                class F(ast.NodeTransformer):
-                                    def visit_IfExp(s2, node):
-                                        s2.generic_visit(node)
-                                        if isinstance(node.test, ast.Constant):
-                                            return node.body if node.test.value else node.orelse
-                                        return node
-                                return F().visit(e2)
-                            rets = [ast.copy_location(ast.Return(value=fold_const(subst(r_.value, {nm: k_}))), r_) for k_ in leaves]
-                            tail2: List[ast.stmt] = [rets[-1]]
-                            for t_, rt_ in zip(reversed(tests), reversed(rets[:-1])):
-                                tail2 = [ast.copy_location(ast.If(test=t_, body=[rt_], orelse=tail2), a_)]
-                            blk[-2:] = tail2
-                            changed = True
+                                def in_text(x_):
+                                    p_ = par_of.get(id(x_))
+                                    while p_ is not None:
+                                        if isinstance(p_, (ast.JoinedStr, ast.FormattedValue, ast.BinOp)):
+                                            return True
+                                        p_ = par_of.get(id(p_))
+                                    return False
+
+                                def is_tested(x_):
+                                    p_ = par_of.get(id(x_))
+                                    return (isinstance(p_, ast.Compare)) or (isinstance(p_, (ast.If, ast.IfExp, ast.While)) and p_.test is x_) or \
+                                        (isinstance(p_, ast.UnaryOp) and isinstance(p_.op, ast.Not)) or isinstance(p_, ast.BoolOp)
+                                if any(in_text(x_) for x_ in in_rest):
+                                    continue
+                                if not (any(is_tested(x_) for x_ in in_rest) or (len(rest_) == 1 and isinstance(rest_[0], ast.Return))):
+                                    continue
+                                leaves, tests, e_ = [], [], a_.value
+                                while isinstance(e_, ast.IfExp):
+                                    tests.append(e_.test)
+                                    leaves.append(e_.body)
+                                    e_ = e_.orelse
+                                leaves.append(e_)
+                                if not all(isinstance(x, ast.Constant) for x in leaves) or len(leaves) > 4 or \
+                                        not all(pure_test(t_) for t_ in tests):
+                                    continue
+
+                                def fold_const(st2):
+                                    class F(ast.NodeTransformer):
+                                        def visit_IfExp(s2, node):
+                                            s2.generic_visit(node)
+                                            if isinstance(node.test, ast.Constant):
+                                                return node.body if node.test.value else node.orelse
+                                            return node
+
+                                        def visit_Compare(s2, node):
+                                            s2.generic_visit(node)
+                                            if len(node.ops) == 1 and isinstance(node.left, ast.Constant) and \
+                                                    isinstance(node.comparators[0], ast.Constant) and \
+                                                    isinstance(node.ops[0], (ast.Is, ast.IsNot, ast.Eq, ast.NotEq)):
+                                                l_, r_2 = node.left.value, node.comparators[0].value
+                                                same = (l_ is r_2) if (l_ is None or r_2 is None) else (l_ == r_2)
+                                                return ast.copy_location(ast.Constant(
+                                                    value=same if isinstance(node.ops[0], (ast.Is, ast.Eq)) else not same), node)
+                                            return node
+
+                                        def visit_UnaryOp(s2, node):
+                                            s2.generic_visit(node)
+                                            if isinstance(node.op, ast.Not) and isinstance(node.operand, ast.Constant):
+                                                return ast.copy_location(ast.Constant(value=not node.operand.value), node)
+                                            return node
+
+                                        def visit_If(s2, node):
+                                            s2.generic_visit(node)
+                                            if isinstance(node.test, ast.Constant):
+                                                return (node.body if node.test.value else node.orelse) or [ast.copy_location(ast.Pass(), node)]
+                                            return node
+                                    r2 = F().visit(st2)
+                                    r2 = r2 if isinstance(r2, list) else [r2]
+                                    return [x_ for x_ in r2 if not isinstance(x_, ast.Pass)] or r2[:1]
+
+                                def instance(k_):
+                                    out_ = []
+                                    for st_ in rest_:
+                                        out_.extend(fold_const(subst(st_, {nm: k_})))
+                                        if out_ and isinstance(out_[-1], (ast.Return, ast.Raise)):
+                                            break       # what follows an unconditional return is dead
+                                    return out_
+                                variants_ = [instance(k_) for k_ in leaves]
+                                tail2: List[ast.stmt] = variants_[-1]
+                                for t_, v_ in zip(reversed(tests), reversed(variants_[:-1])):
+                                    tail2 = [ast.copy_location(ast.If(test=t_, body=v_, orelse=tail2), a_)]
+                                for st_ in tail2:
+                                    ast.fix_missing_locations(st_)
+                                blk[bi:] = tail2
+                                changed = True
+                                break
                     # N8 (comprehensions): a list / dict comprehension over a literal or constant tuple, no filter -> a display
                     for par in list(ast.walk(fnode)):
                         for fld, val in list(ast.iter_fields(par)):
@@ -2304,7 +2365,11 @@ class TypeEnv:
         else:
             tbl = f.value if isinstance(f, ast.Subscript) else \
                 f.func.value if isinstance(f, ast.Call) and isinstance(f.func, ast.Attribute) and f.func.attr == 'get' else None
-            if isinstance(tbl, ast.Name):
+            if isinstance(tbl, ast.Dict) and tbl.values and all(k is not None for k in tbl.keys):
+                vals = list(tbl.values)         # the table is written where it is used
+                if isinstance(f, ast.Call) and len(f.args) > 1:
+                    vals.append(f.args[1])
+            elif isinstance(tbl, ast.Name):
                 d = single_def(tbl.id)
                 if isinstance(d, ast.Dict) and d.values and all(k is not None for k in d.keys):
                     # the table must not be changed after it was written
@@ -2324,6 +2389,11 @@ class TypeEnv:
                 out.append(('lambda', v))
             elif isinstance(v, (ast.Name, ast.Attribute)):
                 sym = self.prog.resolve_expr_symbol(self.mod, v)
+                if sym is None and isinstance(v, ast.Name):
+                    fn_: Optional[FuncInfo] = self.fn
+                    while fn_ is not None and sym is None:
+                        sym = fn_.nested.get(v.id)       # a local helper function
+                        fn_ = fn_.parent
                 if isinstance(sym, FuncInfo):
                     out.append(sym)
                 elif isinstance(sym, ClassInfo):
